@@ -59,7 +59,10 @@ void byte_array::reserve(size_t size)
 
 void byte_array::resize(size_t size)
 {
-    reserve(size);
+    if (p && p->ref > 1)
+        detach(size);
+    else
+        reserve(size);
     if (p->size < size)
         ::memset(p->data + p->size, 0, size - p->size);
     p->size = size;
